@@ -338,7 +338,7 @@ def extra(ctx):
                 bad_ref.append((it, v, tol))
     # ---- certificate goals
     certset = {id(it) for it in cert}
-    chosen = [it for it, _, _ in bad_ref if id(it) in certset][:30]
+    chosen = [it for it, _, _ in bad_ref if id(it) in certset][:6 if tier == "quick" else 30]
     by_kind = {}
     for it in cert:
         by_kind.setdefault(it[0], []).append(it)
